@@ -36,6 +36,14 @@ CLAIMED = {
    text="Fault enumeration inside the real process: for every sampled world x file-producing callback x writer capacity, every height x input-fault kind (file removed/emptied/truncated at six positions/offset past EOF), EIO on every blk read event, every output size limit (all values for small outputs, all write boundaries +-1 otherwise), ENOSPC/EIO at every write event incl. the final buffered flush, failure of every rename, and process abort before every I/O event and inside every write are each executed as one simulated run and judged (exit status, reported height, final-named files, untouched foreign files, no partial final file, on-disk size of the source at each rename). The kill abstraction is exact w.r.t. the dump folder because all file operations are issued by one thread in program order.",
    note="Trusted: the simio seam executes the plan faithfully; abort() stands for SIGKILL; power-loss durability (fsync) is not modelled (not in the property). Worlds are sampled; per world the fault dimensions listed are complete up to the stated caps (120 write events / 250 crash points per run, sampled beyond, reported by probes).",
    tech="deterministic simulation with fault injection: planned I/O faults and crash points addressed by global event index, enumerated per sampled world; oracle over exit status, stderr, directory state and the I/O trace"),
+ "C09": dict(cat="fault_enumeration", ref="§5 C09",
+   text="Stored-state fault enumeration on the simulated disk: for each sampled world and attacked height, every single bit of the prev-hash field, of the merkle-root field and of the txid-covered transaction bytes is flipped (one whole-program run each, ~24k runs quick), every block is swapped for a block of another chain / another height, and a non-genesis block 0 is offered for all 8 coins; each must fail at that height (non-zero exit, no final-named file, no later block fetched per the I/O trace). Completeness: consistent chains with every merkle-tree shape up to 257 txs, any --start, the real genesis block for 5 coins, under benign I/O perturbation must be accepted with model-equal output.",
+   note="Genesis blocks of myriadcoin/unobtanium/noteblockchain could not be rebuilt offline: for them the positive case starts at height 1 and a wrong genesis constant would go unnoticed. Flips in marker/flag/witness bytes, tx-count and version/time/bits/nonce are outside the statement and not judged.",
+   tech="deterministic simulation with stored-state fault injection: exhaustive single-bit flips per sampled block + block swaps, oracle over exit status, stderr height, directory state and I/O trace"),
+ "C17": dict(cat="fault_enumeration", ref="§5 C17",
+   text="History invariant over the recorded I/O trace (open/close events of every blk file against the heights being fetched): after each delivered height no open file may be one whose highest indexed block is already delivered; plus resource-fault enumeration: each world is re-run under a simulated descriptor limit (EMFILE from open) of every value from the model's peak P to P+3 and must succeed with model-equal output. Layout families: disjoint spans up to 300 files (P must be 1), overlapping spans, two interleaved files, late block of an early file, random; ranges starting/stopping mid-file.",
+   note="The descriptor table is simulated inside the seam (count of open blk files), not RLIMIT_NOFILE, so LevelDB's and the output files' descriptors are not counted. Closing early and reopening is legal and not flagged.",
+   tech="deterministic simulation: trace invariant checked at every height boundary + enumerated descriptor-limit faults (EMFILE) per sampled layout"),
 }
 PENDING_REASON = "check not built yet in this revision (claimed in DESIGN.md; will move to checks when its oracle is registered)"
 ALL = ["C%02d" % i for i in range(1, 18)]
